@@ -77,6 +77,8 @@ class Ctx(object):
         me = sim.current
         if cas is not None and cas._lock.owner is me:
             self.run.violate('producers_never_wait_for_storage', 'storage-call-under-lock', 'the flusher executes %s on the wrapped storage while holding the buffer lock' % op)
+        if self.closed_wrapped:
+            self.run.violate('close_closes_wrapped', 'operation-after-wrapped-close', 'the wrapped cassette was closed before the pending %s of %s was applied' % (op, rid))
         n = self.op_counter.get(rid, 0)
         self.op_counter[rid] = n + 1
         tag = (self.ordinal.get(rid), n)
